@@ -9,7 +9,7 @@ LEVEL = "model_checking"
 def run(ctx):
     ctx.code()
     import c_hydrodiy_data as cd
-    res = ctx.tlc("DateUtilsDump", "MC_DateUtils_%s.cfg" % ctx.tier, workers=8, timeout=1800, heap="6g")
+    res = ctx.tlc("DateUtilsDump", "MC_DateUtils_%s.cfg" % ctx.tier, timeout=1800, heap="6g")
     if res.violated:
         raise Machinery("DateUtils.tla: the model of c_dateutils disagrees with Calendar.tla: %s" % res.violated)
     n = 0
